@@ -2,7 +2,7 @@
     where the second loop is a renamed copy (fresh iteration Sym i2).  The term-level tie covers bodies without inner
     binders (Alpha_Rename also renames those). *)
 From Coq Require Import ZArith List Bool Lia.
-From Core Require Import Syntax Sem Equiv Induction PartialEval PartialEvalSound Subst Rules RewriteAtL ShiftLoop.
+From Core Require Import Syntax Sem Equiv Induction PartialEval PartialEvalSound Subst Rules RewriteAt RewriteAtL ShiftLoop.
 Import ListNotations.
 Local Open Scope Z_scope.
 
@@ -63,4 +63,29 @@ Proof.
   intros i i2 mid p inp bufs cfg Hsem Hok. unfold cut_proc, cut_ok_proc in *.
   apply rwl_proc_preserves with (ok := cut_syn_ok i i2 mid); [|exact Hok].
   intros s l Hf Hs. eapply cut_f_sound; [eapply Hsem; exact Hf|exact Hf|exact Hs].
+Qed.
+
+(** ** join_loops as the implementation performs it (DoJoinLoops): the two loops have DISTINCT iteration Syms and the
+    second bound is only semantically equal to the first loop's upper bound (Check_ExprEqvInContext); the bodies are
+    equal up to the renaming of the iteration variable (LoopIR_Compare.match_stmts, for bodies without inner binders:
+    [pe_ss j (Var i) body2 = body]).  Composition of [rule_rename_iter] (second loop renamed to the first loop's Sym)
+    and [rule_join_loops]. *)
+Theorem rule_join_loops_renamed : forall i j lo mid mid2 hi body body2 par par1 par2,
+  env_only lo = true -> env_only mid = true -> env_only hi = true ->
+  (forall s, eval s mid2 = eval s mid) ->
+  forallb (okbind (okbR j i)) body2 = true -> forallb (nm_s j (hidR i)) body2 = true ->
+  pe_ss j (Var i) body2 = body ->
+  forall st st' l m h,
+    eval st lo = Ok (VInt l) -> eval st mid = Ok (VInt m) -> eval st hi = Ok (VInt h) ->
+    exec_list [For i lo mid body par1; For j mid2 hi body2 par2] st = Ok st' ->
+    exec_list [For i lo hi body par] st = Ok st'.
+Proof.
+  intros i j lo mid mid2 hi body body2 par par1 par2 Hlo Hmid Hhi Heqv Hok Hnm Hbody st st' l m h El Em Eh Hrun.
+  apply (rule_join_loops i lo mid hi body par par1 par2 Hlo Hmid Hhi st st' l m h El Em Eh).
+  assert (Hsecond : refines [For j mid2 hi body2 par2] [For i mid hi body par2]).
+  { eapply refines_trans with (b := [For j mid hi body2 par2]).
+    - intros s s' H. rewrite single in *. rewrite exec_For in *. rewrite <- Heqv. exact H.
+    - rewrite <- Hbody. apply rule_rename_iter; assumption. }
+  exact (refines_cons (For i lo mid body par1) (For i lo mid body par1) _ _
+           (refines_refl _) Hsecond st st' Hrun).
 Qed.
